@@ -38,6 +38,38 @@ def byte16_at(out, o, pal, b):
     return px_at(out, o, pal[hi_nib(b)]) and px_at(out, o + 3, pal[lo_nib(b)])
 
 
+# Composite-to-RGB table of mgetoppm.  The property speaks of "the colour its palette entry denotes"; for
+# composite palettes the only specification available is this table.  Its values are pinned to the pinned
+# tree (an assumption listed in the evidence); independently of that it must be a permutation of 0..63.
+C2R = [0, 21, 2, 20, 6, 49, 35, 4, 33, 5, 14, 1, 12, 10, 3, 28, 7, 17, 16, 22, 48, 34, 37, 32, 44, 40, 42, 13, 8, 11, 24,
+       26, 56, 19, 18, 50, 54, 52, 38, 36, 46, 45, 41, 15, 9, 25, 27, 30, 63, 58, 23, 51, 55, 53, 39, 60, 47, 61, 43, 57,
+       29, 31, 59, 62]
+
+
+def mge_pal(inp, k):
+    """k-th palette entry of an MGE file as an RGB colour code: stored as is when byte 17 is 0 (RGB palette),
+    mapped through the composite table otherwise"""
+    return inp[1 + k] if inp[17] == 0 else C2R[inp[1 + k]]
+
+
+def mge_palette(inp):
+    return [mge_pal(inp, 0), mge_pal(inp, 1), mge_pal(inp, 2), mge_pal(inp, 3), mge_pal(inp, 4), mge_pal(inp, 5),
+            mge_pal(inp, 6), mge_pal(inp, 7), mge_pal(inp, 8), mge_pal(inp, 9), mge_pal(inp, 10), mge_pal(inp, 11),
+            mge_pal(inp, 12), mge_pal(inp, 13), mge_pal(inp, 14), mge_pal(inp, 15)]
+
+
 # Spec functions that callers see only as uninterpreted symbols; a unit lists them under `reveal` when its
 # proof needs the definition (the closures that compute the colour from the bits).
 OPAQUE = ["px6r", "px6g", "px6b"]
+
+
+def max_w(newsroom, cols0, inp, base):
+    """image width MAX announces: 8 x the first header byte for Newsroom/.ART files, else the -w option"""
+    return inp[base] * 8 if newsroom else cols0
+
+
+def max_h(newsroom, cols0, rows0, inp, base):
+    """image height: second header byte (Newsroom); the -r option if given; else derived from the big-endian
+    length field: rows = 8 * size div cols"""
+    derived = rows0 if rows0 is not None else (8 * (inp[base + 1] * 256 + inp[base + 2])) // cols0
+    return inp[base + 1] if newsroom else derived
